@@ -79,8 +79,13 @@ End == /\ Ev.ev = "end"
        /\ ends' = [ends EXCEPT ![Ev.p] = @ + 1]
        /\ UNCHANGED <<tbl, parts>>
 
+(* The answer for a name that is a registered PACKAGE is left open: the statements speak of the symbols
+   of files.  (Observed: Lookup("p") is nil before and long after package p is registered, but answers
+   with the package's location when the registration falls between its walk down the trie and its read
+   of the symbols map.)  *)
 Lookup == /\ Ev.ev = "lookup"
-          /\ (Ev.r = "found") <=> (LookupRes(tbl, Ev.name) # "")
+          /\ \/ Ev.name \in tbl.pkgs
+             \/ (Ev.r = "found") <=> (LookupRes(tbl, Ev.name) # "")
           /\ UNCHANGED <<tbl, procs, ends, parts>>
 
 LookupExt == /\ Ev.ev = "lookupExt"
